@@ -13,6 +13,9 @@ for k, tiers in ((2, ("quick", "thorough")), (3, ("thorough",))):
         name="C08.b updatable tree, %d upserts at positions 0..3 (restart before any): GetLeaf = value last written as of each root; proofs verify (also for unwritten positions)" % k,
         harness=T + "ZZVerif_C08_UpdatableBMC", params={"K": k}, tiers=tiers, reach=["written"], time_limit_s=3000,
         bounds="%d upserts, positions 0..3, values non-zero and fresh (never written before), all (root j, position i)" % k))
+OBLIGATIONS.append(dict(
+    name="C08.d storage unavailable (database handle closed) after two appends: proof, leaf and root queries report an error instead of a proof that does not lead to the root",
+    harness=T + "ZZVerif_C08_StorageError", reach=["end"], time_limit_s=1500, bounds="two leaves with arbitrary non-zero values"))
 
 
 def _shape(tokens):
